@@ -1,7 +1,7 @@
 """C18 - symbol search and path listings (structural necessary conditions)."""
 from vlib import factbase as fb
 from vlib import q
-from .common import ctx, loc, chain_up, match_arms_on, arms_by_variant
+from .common import pname, ctx, loc, chain_up, match_arms_on, arms_by_variant
 from . import c04
 
 GRAPHNODE = "liwe::graph::graph_node::GraphNode"
@@ -211,7 +211,7 @@ def rule_r4(facts, rep, rid="C18-R4"):
         iff = None
         if body is not None:
             for x in fb.walk(body):
-                if x.get("k") == "if" and any(y.get("k") == "mcall" and y["name"] == "is_empty" and ("param", "query") in c.vprov(y["recv"]) for y in fb.walk(x["c"])):
+                if x.get("k") == "if" and any(y.get("k") == "mcall" and y["name"] == "is_empty" and ("param", pname(f, 1)) in c.vprov(y["recv"]) for y in fb.walk(x["c"])):
                     iff = x
                     break
         if iff is None:
